@@ -141,11 +141,20 @@ func (c *Collector) Expired() bool {
 	return false
 }
 
-func (c *Collector) SetRule(rule string)        { c.mu.Lock(); c.r.Rule = rule; c.mu.Unlock() }
-func (c *Collector) Assume(a ...string)         { c.mu.Lock(); c.r.Assumptions = append(c.r.Assumptions, a...); c.mu.Unlock() }
-func (c *Collector) Bound(k string, v any)      { c.mu.Lock(); c.r.Bounds[k] = v; c.mu.Unlock() }
-func (c *Collector) Note(k, v string)           { c.mu.Lock(); c.r.Notes[k] = v; c.mu.Unlock() }
-func (c *Collector) NotExhaustive(why string)   { c.mu.Lock(); c.r.Exhaustive = false; c.r.Notes["not_exhaustive"] = why; c.mu.Unlock() }
+func (c *Collector) SetRule(rule string) { c.mu.Lock(); c.r.Rule = rule; c.mu.Unlock() }
+func (c *Collector) Assume(a ...string) {
+	c.mu.Lock()
+	c.r.Assumptions = append(c.r.Assumptions, a...)
+	c.mu.Unlock()
+}
+func (c *Collector) Bound(k string, v any) { c.mu.Lock(); c.r.Bounds[k] = v; c.mu.Unlock() }
+func (c *Collector) Note(k, v string)      { c.mu.Lock(); c.r.Notes[k] = v; c.mu.Unlock() }
+func (c *Collector) NotExhaustive(why string) {
+	c.mu.Lock()
+	c.r.Exhaustive = false
+	c.r.Notes["not_exhaustive"] = why
+	c.mu.Unlock()
+}
 func (c *Collector) AddStates(n int64)          { c.mu.Lock(); c.r.States += n; c.mu.Unlock() }
 func (c *Collector) AddTransitions(n int64)     { c.mu.Lock(); c.r.Transitions += n; c.mu.Unlock() }
 func (c *Collector) AddTraces(n int64)          { c.mu.Lock(); c.r.Traces += n; c.mu.Unlock() }
